@@ -151,6 +151,12 @@ Theorem c09_unquoted_binary_flagged : forall ds rest c,
 Proof. exact unquoted_binary_flagged. Qed.
 Print Assumptions c09_unquoted_binary_flagged.
 
+Theorem c09_empty_binary_flagged : forall rest c,
+  is_xdigit c = false -> N.eqb c DQUOTE = false ->
+  fst (read_binary (of_bytes (DQUOTE :: DQUOTE :: c :: rest)) SEVERITY_NULL true) = (None, SEVERITY_WARNING).
+Proof. exact empty_binary_flagged. Qed.
+Print Assumptions c09_empty_binary_flagged.
+
 Example c09_binary_example :
   read_binary (of_bytes [34; 48; 70; 34; 44]%N) SEVERITY_NULL true = (Some [48; 70]%N, SEVERITY_NULL, mkS [44%N] false false).
 Proof. vm_compute. reflexivity. Qed.
